@@ -196,17 +196,19 @@ fn adaptors<I: Iterator>(o: &mut Obs, name: &'static str, t: &mut Tape, mut it: 
     o.op(name);
     let bound = o.iter_bound;
     let mut consumed = 0usize;
+    // step widths: small ones, and the extremes an index computation may not survive
+    let width = |t: &mut Tape| -> usize { [0usize, 1, 2, 3, 17, usize::MAX, usize::MAX / 8, 1 << 61, (1 << 32) - 1][t.choose(9)] };
     for _ in 0..1 + t.choose(5) {
         match t.choose(7) {
             0 => consumed += it.next().is_some() as usize,
-            1 => consumed += it.nth(t.choose(4)).is_some() as usize,
+            1 => consumed += it.nth(width(t)).is_some() as usize,
             2 => {
                 let _ = it.size_hint();
             }
             3 => consumed += it.by_ref().take(bound + 1).count(),
             4 => consumed += it.by_ref().take(bound + 1).last().is_some() as usize,
-            5 => consumed += it.by_ref().step_by(1 + t.choose(3)).take(bound + 1).count(),
-            _ => consumed += it.by_ref().skip(t.choose(4)).take(bound + 1).fold(0usize, |a, _| a + 1),
+            5 => consumed += it.by_ref().step_by(width(t).max(1)).take(bound + 1).count(),
+            _ => consumed += it.by_ref().skip(width(t)).take(bound + 1).fold(0usize, |a, _| a + 1),
         }
         if consumed > bound {
             o.set_fail(FailKind::IterBound, name, format!("iterator driven through adaptors yielded more than {bound} items"));
@@ -214,10 +216,12 @@ fn adaptors<I: Iterator>(o: &mut Obs, name: &'static str, t: &mut Tape, mut it: 
         }
     }
     // by value: the only way to reach an overridden `fold` / `count` / `last`
-    match t.choose(4) {
+    match t.choose(5) {
         1 => consumed += it.take(bound + 1).count(),
         2 => consumed += it.fold(0usize, |a, _| if a > bound { a } else { a + 1 }),
         3 => consumed += it.last().is_some() as usize,
+        // the type's own count(), if it has one (an iterator that never ends is the watchdog's)
+        4 => consumed += it.count(),
         _ => {}
     }
     if consumed > bound {
@@ -1064,6 +1068,22 @@ pub fn run_compound(d: &[u8], t: &mut Tape, o: &mut Obs) {
     if t.choose(2) == 1 {
         if let Ok(c2) = Compound::parse(d) {
             adaptors(o, "Compound::next", t, c2);
+        }
+    }
+    // Debug of the iterator in every state: fresh (above), part-way, exhausted, past the end
+    if t.choose(2) == 1 {
+        if let Ok(mut c3) = Compound::parse(d) {
+            let k = t.choose(tl.len() + 3);
+            o.op("Compound::fmt");
+            for _ in 0..k {
+                let _ = c3.next();
+            }
+            o.res(format!("{c3:?}").len().min(1 << 20) as u64);
+            if t.choose(2) == 1 {
+                let n = c3.by_ref().take(o.iter_bound + 1).count();
+                o.res(n as u64);
+                o.res(format!("{c3:?}").len().min(1 << 20) as u64);
+            }
         }
     }
 }
